@@ -141,7 +141,7 @@ fn main() {
             let mut w = BufWriter::new(std::fs::File::create(&args[5]).expect("create script"));
             let mut nops = 0usize;
             for (k, e) in eps.iter().enumerate() {
-                writeln!(w, "{}", json!({"op": "reset", "ep": k, "n": e.n, "tys": e.tys, "prop": prop})).unwrap();
+                writeln!(w, "{}", json!({"op": "reset", "ep": k, "n": e.n, "tys": e.tys, "prop": prop, "w": gen::weight(prop, e)})).unwrap();
                 for op in &e.ops {
                     writeln!(w, "{}", op).unwrap();
                     nops += 1;
@@ -231,7 +231,7 @@ fn main() {
                         writeln!(w, "{}", e).unwrap();
                         nev += 1;
                     }
-                    weight += (ep.len()) * (1 + (1usize << n) / 16);
+                    weight += hdr["w"].as_u64().map(|x| x as usize).unwrap_or((ep.len()) * (1 + (1usize << n) / 16));
                     nep += 1;
                 }
             }
